@@ -337,8 +337,14 @@ func checkSharedKernels(ctx *Ctx, r *Report) {
 		}
 		c := t.Args[0]
 		a, b := t.Args[1], t.Args[2]
-		if c.Op != "cmp" || c.S != "!=" || !(c.Args[1].IsZero() || c.Args[0].IsZero()) {
-			return "cond:" + shortKey(c.Key(), 60)
+		// wn != 0 is represented as !(wn == 0); the mirrored form `wn == 0 ? √ : −√` is the same rule
+		if c.Op == "not" {
+			c = c.Args[0]
+		} else {
+			a, b = b, a
+		}
+		if c.Op != "cmp" || c.S != "==" || !(c.Args[1].IsZero() || c.Args[0].IsZero()) {
+			return "cond:" + shortKey(t.Args[0].Key(), 60)
 		}
 		sq := func(x *Term) bool { return x.Op == "call" && x.S == "math.Sqrt" }
 		if a.Op == "*" && sq(b) && equalRat(a, Neg(b)) {
